@@ -223,6 +223,9 @@ func genCase(t *rapid.T) Case {
 	if c.Class == "wide-whole-numbers" {
 		lim -= 52
 	}
+	if c.Class == "long-and-short" {
+		lim -= 12 // ordinates of up to 32 bits instead of 20: their products must stay finite
+	}
 	if c.Class == "hair-segment-far-point" {
 		lim -= 62 // ordinates of up to 62 bits: their squares (fourth powers) must stay finite
 	}
